@@ -594,7 +594,7 @@ def run_document(ctx, L, n):
         for omit in omits:
             sub = [('all-continue', {})]
             for i in range(nev):
-                if ctx.tier != 'quick' or i >= nev - 6 or (i + len(omit) + n) % 11 == 0:
+                if i >= nev - 6 or (i + len(omit) + n) % (11 if ctx.tier == 'quick' else 3) == 0:
                     for a in ANSWERS:
                         sub.append(('single:%s:%s' % (evs[i].kind, answer_name(a)), {i: a}))
             sub += [pp for pp in progs if pp[0] == 'random'][:2]
